@@ -37,7 +37,7 @@ package jsonapi
 
 //@ func NewSimpleURL
 //@ flag absolute-quantifiers
-//@ props C07
+//@ props C07 C12
 //@ modifies new[string], new[[]string], new[map[string][]string], new[map[string]any], new[Filter], new[*Filter], new[uint8], new[any], new[time.Time]
 //@ ensures wf: result1 == nil ==> suWf(result0)
 //@ loop 0 invariant su: sURL.Fields != nil && fresh(sURL.Fields) && (sURL.Page == nil || fresh(sURL.Page)) && fresh(sURL.SortingRules) && fresh(sURL.Include) && nonEmptyItems(sURL.Fragments) && nonEmptyItems(sURL.SortingRules) && nonEmptyItems(sURL.Include) && u != nil
@@ -91,7 +91,7 @@ package jsonapi
 
 //@ func NewURL
 //@ flag post-per-return
-//@ props C07
+//@ props C07 C12
 //@ requires schema: schema != nil && targetsExist(schema)
 //@ requires su: suWf(su)
 //@ modifies new[URL], new[Params], new[string], new[[]string], new[map[string][]string], new[map[string][]Attr], new[map[string][]Rel], new[Attr], new[Rel], new[[]Rel], new[any]
@@ -99,7 +99,7 @@ package jsonapi
 //@ ensures known-type: result1 == nil ==> hasType(schema, result0.ResType)
 
 //@ func NewURLFromRaw
-//@ props C07
+//@ props C07 C12
 //@ requires schema: schema != nil && targetsExist(schema)
 //@ modifies new[URL], new[Params], new[string], new[[]string], new[map[string][]string], new[map[string][]Attr], new[map[string][]Rel], new[Attr], new[Rel], new[[]Rel], new[any], new[map[string]any], new[Filter], new[*Filter], new[uint8], new[time.Time], new[url.URL]
 //@ ensures error-xor-result: (result1 != nil) == (result0 == nil)
